@@ -1,5 +1,5 @@
 (** C19 — Task mutators, their recorded operations and the task model agree. *)
-From TC Require Import Model.Task Model.TaskMut Proofs.TaskMutP Proofs.TagsP Proofs.UdaP Proofs.SynthP Proofs.ReplayP.
+From TC Require Import Model.Task Model.TaskMut Proofs.TaskMutP Proofs.TagsP Proofs.UdaP Proofs.SynthP Proofs.ReplayP Proofs.SynthMutP.
 From Coq Require Import Strings.String.
 
 (** For any sequence of mutator calls (refused ones change nothing) on a task
@@ -190,6 +190,32 @@ Theorem C19_repeated_application : forall (nowstr : list N) (m0 : gmap (list N) 
   replay_log (replay_log m0 (ts_log s)) (ts_log s) = ts_map s.
 Proof. exact repeated_application. Qed.
 
+(** The synthetic tags follow the mutators: after [set_status] the task
+    carries exactly the status tag of the status written; [start] makes it
+    ACTIVE, [stop] takes ACTIVE away. *)
+Theorem C19_status_tag_follows : forall nowstr ts_min ts_max now s dm u,
+  (s2l "PENDING" ∈ synthetic_tags ts_min ts_max now (ts_map (set_status nowstr s StPending)) dm u) /\
+  (s2l "COMPLETED" ∈ synthetic_tags ts_min ts_max now (ts_map (set_status nowstr s StCompleted)) dm u) /\
+  (s2l "DELETED" ∈ synthetic_tags ts_min ts_max now (ts_map (set_status nowstr s StDeleted)) dm u).
+Proof. exact status_tag_follows. Qed.
+
+Theorem C19_status_tag_exclusive : forall nowstr ts_min ts_max now s dm u,
+  s2l "PENDING" ∉ synthetic_tags ts_min ts_max now (ts_map (set_status nowstr s StCompleted)) dm u /\
+  s2l "PENDING" ∉ synthetic_tags ts_min ts_max now (ts_map (set_status nowstr s StDeleted)) dm u /\
+  s2l "COMPLETED" ∉ synthetic_tags ts_min ts_max now (ts_map (set_status nowstr s StPending)) dm u /\
+  s2l "COMPLETED" ∉ synthetic_tags ts_min ts_max now (ts_map (set_status nowstr s StDeleted)) dm u /\
+  s2l "DELETED" ∉ synthetic_tags ts_min ts_max now (ts_map (set_status nowstr s StPending)) dm u /\
+  s2l "DELETED" ∉ synthetic_tags ts_min ts_max now (ts_map (set_status nowstr s StCompleted)) dm u.
+Proof. exact status_tag_exclusive. Qed.
+
+Theorem C19_start_makes_active : forall nowstr ts_min ts_max now s s' dm u,
+  run_mutator nowstr s MStart = Some s' -> s2l "ACTIVE" ∈ synthetic_tags ts_min ts_max now (ts_map s') dm u.
+Proof. exact start_makes_active. Qed.
+
+Theorem C19_stop_clears_active : forall nowstr ts_min ts_max now s s' dm u,
+  run_mutator nowstr s MStop = Some s' -> s2l "ACTIVE" ∉ synthetic_tags ts_min ts_max now (ts_map s') dm u.
+Proof. exact stop_clears_active. Qed.
+
 Print Assumptions C19_held_equals_stored.
 Print Assumptions C19_mutator_keeps_agreement.
 Print Assumptions C19_modified_once_first.
@@ -225,3 +251,7 @@ Print Assumptions C19_depmap_exact.
 Print Assumptions C19_gone_or_closed_blocks_nobody.
 Print Assumptions C19_replay_idempotent.
 Print Assumptions C19_repeated_application.
+Print Assumptions C19_status_tag_follows.
+Print Assumptions C19_status_tag_exclusive.
+Print Assumptions C19_start_makes_active.
+Print Assumptions C19_stop_clears_active.
